@@ -65,7 +65,7 @@ impl Cx {
             Expr::Paren(p) => self.core(&p.expr),
             Expr::Reference(r) => self.core(&r.expr),
             Expr::MethodCall(m) if ["map_err", "into"].contains(&m.method.to_string().as_str()) => self.core(&m.receiver),
-            Expr::MethodCall(m) if m.method == "map" && ["PskSecret", "Zeroizing::new", "Into::into"].contains(&flat(&m.args[0]).as_str()) => self.core(&m.receiver),
+            Expr::MethodCall(m) if m.method == "map" && ["PskSecret", "Zeroizing::new", "Into::into", "PathSecret::from"].contains(&flat(&m.args[0]).as_str()) => self.core(&m.receiver),
             _ => e,
         }
     }
@@ -75,7 +75,7 @@ impl Cx {
         match e {
             Expr::Lit(ExprLit { lit: Lit::ByteStr(b), .. }) => ascii(&b.value()),
             Expr::Array(a) if a.elems.is_empty() => "[]".into(),
-            Expr::Macro(m) if flat(m) == "vec![0;cipher_suite_provider.kdf_extract_size()]" => "(repeat 0 extract_size)".into(),
+            Expr::Macro(m) if ["vec![0;cipher_suite_provider.kdf_extract_size()]", "vec![0u8;cipher_suite_provider.kdf_extract_size()]"].contains(&flat(m).as_str()) => "(repeat 0 extract_size)".into(),
             Expr::MethodCall(m) if m.method == "kdf_extract" && m.args.len() == 2 && ["cipher_suite_provider", "cipher_suite"].contains(&flat(&m.receiver).as_str()) => {
                 format!("(hkdf_extract H {} {})", self.bytes(&m.args[0]), self.bytes(&m.args[1]))
             }
@@ -101,7 +101,7 @@ impl Cx {
                     }
                     ("kdf_derive_secret", 3) => format!("(kdf_derive_secret H {} {})", self.bytes(a[1]), self.bytes(a[2])),
                     ("get_pre_epoch_secret", 3) => format!("(gen_get_pre_epoch_secret {} {})", self.bytes(a[1]), self.bytes(a[2])),
-                    ("PreSharedKey::from", 1) | ("SenderDataSecret::from", 1) | ("InitSecret", 1) => self.bytes(a[0]),
+                    ("PreSharedKey::from", 1) | ("SenderDataSecret::from", 1) | ("InitSecret", 1) | ("PathSecret::from", 1) | ("Zeroizing::new", 1) => self.bytes(a[0]),
                     _ => die(&format!("call `{}`", flat(e))),
                 }
             }
@@ -464,11 +464,94 @@ fn secret_tree(sf: &File) -> String {
     format!("{children}\n{derive}\n{new}\n{next}\n{order}")
 }
 
+
+/// tree_kem/path_secret.rs: PathSecret::empty, the node secret of to_hpke_key_pair and the state
+/// machine of PathSecretGenerator::next_secret (starting_with, else derive from last, else random;
+/// then remember the secret handed out)
+fn path_secret(tf: &File) -> String {
+    // empty
+    let b = find_method(tf, "PathSecret", "empty");
+    let empty = match &b.stmts[..] {
+        [Stmt::Expr(e, None)] => Cx::new(&[]).bytes(e),
+        _ => die("PathSecret::empty: shape"),
+    };
+    // to_hpke_key_pair: let node_secret = ...; cs.kem_derive(&node_secret)...
+    let b = find_method(tf, "PathSecret", "to_hpke_key_pair");
+    let mut cx = Cx::new(&[("self", "path_secret")]);
+    let (lets, rest) = cx.lets(&b.stmts);
+    match rest {
+        [Stmt::Expr(e, None)] if flat(cx.core(e)) == "cs.kem_derive(&node_secret)" => {}
+        _ => die("to_hpke_key_pair: tail"),
+    }
+    if !lets.starts_with("let node_secret := ") || lets.matches("let ").count() != 1 {
+        die("to_hpke_key_pair: lets");
+    }
+    // the two constructors of the generator
+    if flat(find_method(tf, "PathSecretGenerator<'a,P>", "new")) != "{Self{cipher_suite_provider,last:None,starting_with:None,}}"
+        || flat(find_method(tf, "PathSecretGenerator<'a,P>", "starting_with")) != "{Self{starting_with:Some(secret),..Self::new(cipher_suite_provider)}}"
+    {
+        die("PathSecretGenerator constructors");
+    }
+    // next_secret
+    let b = find_method(tf, "PathSecretGenerator<'a,P>", "next_secret");
+    if b.stmts.len() != 3 || flat(&b.stmts[1]) != "self.last=Some(secret.clone());" || flat(&b.stmts[2]) != "Ok(secret)" {
+        die("next_secret: statements");
+    }
+    let init = match &b.stmts[0] {
+        Stmt::Local(l) if flat(&l.pat) == "secret" => &l.init.as_ref().unwrap_or_else(|| die("next_secret: let")).expr,
+        _ => die("next_secret: first statement"),
+    };
+    let outer = match &**init {
+        Expr::Try(t) => match &*t.expr {
+            Expr::If(i) => i,
+            _ => die("next_secret: not an if"),
+        },
+        _ => die("next_secret: no ?"),
+    };
+    if flat(&outer.cond) != "letSome(starting_with)=self.starting_with.take()" || flat(&outer.then_branch) != "{Ok(starting_with)}" {
+        die("next_secret: first branch");
+    }
+    let inner = match outer.else_branch.as_ref().map(|(_, e)| &**e) {
+        Some(Expr::If(i)) => i,
+        _ => die("next_secret: second branch"),
+    };
+    if flat(&inner.cond) != "letSome(last)=self.last.take()" {
+        die("next_secret: second condition");
+    }
+    let derived = match &inner.then_branch.stmts[..] {
+        [Stmt::Expr(e, None)] => Cx::new(&[("last", "last")]).bytes(e),
+        _ => die("next_secret: derivation"),
+    };
+    match inner.else_branch.as_ref().map(|(_, e)| flat(e)) {
+        Some(x) if x == "{PathSecret::random(self.cipher_suite_provider)}" => {}
+        _ => die("next_secret: random branch"),
+    }
+    format!(
+        "(* tree_kem/path_secret.rs *)\nDefinition gen_path_secret_empty : list N := {empty}.\n\n\
+Definition gen_node_secret (path_secret : list N) : list N :=\n  {lets}node_secret.\n\n\
+Record psgen := {{ pg_last : option (list N); pg_start : option (list N) }}.\n\
+Definition psgen_new : psgen := {{| pg_last := None; pg_start := None |}}.\n\
+Definition psgen_starting_with (s : list N) : psgen := {{| pg_last := None; pg_start := Some s |}}.\n\
+(* next_secret: [random] is what PathSecret::random would return *)\n\
+Definition gen_next_secret (g : psgen) (random : list N) : list N * psgen :=\n\
+  let '(secret, g1) :=\n\
+    match pg_start g with\n\
+    | Some starting_with => (starting_with, {{| pg_last := pg_last g; pg_start := None |}})\n\
+    | None => match pg_last g with\n\
+              | Some last => ({derived}, {{| pg_last := None; pg_start := None |}})\n\
+              | None => (random, g)\n\
+              end\n\
+    end in\n\
+  (secret, {{| pg_last := Some secret; pg_start := pg_start g1 |}}).\n\n"
+    )
+}
+
 pub fn run(repo: &str, out: &str) {
     let kf = parse(&format!("{repo}/mls-rs/src/group/key_schedule.rs"));
     let pf = parse(&format!("{repo}/mls-rs/src/psk/secret.rs"));
     let lf = parse(&format!("{repo}/mls-rs/src/psk.rs"));
     let sf = parse(&format!("{repo}/mls-rs/src/group/secret_tree.rs"));
+    let tf = parse(&format!("{repo}/mls-rs/src/tree_kem/path_secret.rs"));
     let pre = simple(&kf, "get_pre_epoch_secret", &[("psk_secret", "psk_secret"), ("joiner_secret.0", "joiner")], "(psk_secret joiner : list N)");
     let wel = simple(&kf, "get_welcome_secret", &[("psk_secret", "psk_secret"), ("joiner_secret", "joiner")], "(joiner psk_secret : list N)");
     // export_secret: the guard on a deleted exporter is not part of the dataflow
@@ -486,9 +569,9 @@ pub fn run(repo: &str, out: &str) {
         format!("Definition gen_export_secret (exporter_secret label context : list N) (len : nat) : list N :=\n  {lets}{last}.\n")
     };
     let s = format!(
-        "(* GENERATED by rs2v keysched from mls-rs/src/group/key_schedule.rs, group/secret_tree.rs and psk/secret.rs.  Do not edit. *)\n\
+        "(* GENERATED by rs2v keysched from mls-rs/src/group/key_schedule.rs, group/secret_tree.rs, psk/secret.rs and tree_kem/path_secret.rs.  Do not edit. *)\n\
 From Coq Require Import NArith List Bool.\nFrom MlsV Require Import Res Codec Hkdf KeyScheduleRFC KeyScheduleCode.\nImport ListNotations.\nLocal Open Scope N_scope.\n\n\
-Section Gen.\n  Variable H : hash_alg.\n  Let extract_size := h_len H.\n\n{}\n{}\n{}\n{}\n{}\n{}\n{}\n{}End Gen.\n",
+Section Gen.\n  Variable H : hash_alg.\n  Let extract_size := h_len H.\n\n{}\n{}\n{}\n{}\n{}\n{}\n{}\n{}{}End Gen.\n",
         pre,
         from_epoch_secret(&kf),
         from_joiner(&kf),
@@ -496,7 +579,8 @@ Section Gen.\n  Variable H : hash_alg.\n  Let extract_size := h_len H.\n\n{}\n{}
         wel,
         exp,
         psk_calculate(&pf, &lf),
-        secret_tree(&sf)
+        secret_tree(&sf),
+        path_secret(&tf)
     );
     std::fs::write(out, s).unwrap();
 }
